@@ -72,3 +72,43 @@ func TestC02R(t *testing.T) {
 	runSimCheck(t, "C02", "receiver poll answers over delivery histories (E-HIST)", files, c02rAlphabet(files, vh.Thorough()), c02rCheck, depth,
 		fmt.Sprintf("all histories up to length %d over: single-part file a in two versions (the second created a day later), file b held for a; deliveries (up to twice), one corrupted delivery, polls carrying the file's time or a time 48 h older (<=2), clock +25 h (x2) / +11 s, cache ageing, orderly restart; every positive poll answer is checked against what the receiver durably holds", depth))
 }
+
+// TestC02RHeld: poll answers while version 1 of a file is held for its predecessor and version 2
+// of it arrives (intact or damaged).
+func TestC02RHeld(t *testing.T) {
+	files := []*sFile{
+		{Key: "a1", Name: "a", Data: "AAAA", Cuts: []int64{0, 4}},
+		{Key: "b1", Name: "b", Prev: "a", Data: "CCCC", Cuts: []int64{0, 4}},
+		{Key: "b2", Name: "b", Prev: "a", Data: "cccc", Cuts: []int64{0, 4}, TimeOff: 60},
+	}
+	alphabet := func(hist []sAction) []sAction {
+		var out []sAction
+		b1done := histCount(hist, "recv", "b1", 0) > 0
+		for _, f := range files {
+			if f.Key == "b2" && !b1done {
+				continue
+			}
+			if histCount(hist, "recv", f.Key, 0) < 1 {
+				out = append(out, sAction{Op: "recv", F: f.Key, P: 0})
+			}
+		}
+		if histCount(hist, "recvbad", "", 0) < 1 && b1done {
+			out = append(out, sAction{Op: "recvbad", F: "b2", P: 0})
+		}
+		if histCount(hist, "poll", "", 0) < 2 {
+			out = append(out, sAction{Op: "poll", F: "b1"}, sAction{Op: "poll", F: "b2"})
+		}
+		for _, op := range []string{"restart", "adv10s"} {
+			if histCount(hist, op, "", 0) < 1 {
+				out = append(out, sAction{Op: op})
+			}
+		}
+		return out
+	}
+	depth := 6
+	if vh.Thorough() {
+		depth = 8
+	}
+	runSimCheck(t, "C02", "receiver poll answers around a held file that is superseded by a new version (E-HIST)", files, alphabet, c02rCheck, depth,
+		fmt.Sprintf("all histories up to length %d over: file a, file b version 1 (predecessor a) and, after it, version 2 - delivered intact or damaged; polls for either version (<=2), orderly restart, clock +11 s", depth))
+}
